@@ -51,6 +51,9 @@ def build_pattern(rng, tr, pathname, ext, globstar):
         if not ast or gen.ambiguous_adjacency(ast):
             continue
         neg = rng.random() < 0.3
+        if pathname and rng.random() < 0.2 and ast[0][0] != 'sep':
+            # a leading separator anchors the piece at the root of the walk (and switches MATCHBASE off for it)
+            ast = (('sep', '/'),) + tuple(ast)
         pieces.append((neg, gen.ser(ast), ast))
     return pieces
 
@@ -93,8 +96,12 @@ def model_predicate(pieces, pathname, fn):
     ps = pathspec(('DOTGLOB',) + (('GLOBSTAR',) if 'GLOBSTAR' in fn else ()) + (('MATCHBASE',) if 'MATCHBASE' in fn else ()) +
                   (('IGNORECASE',) if icase else ()))
 
+    ps_anchored = pathspec(('DOTGLOB',) + (('GLOBSTAR',) if 'GLOBSTAR' in fn else ()) + (('IGNORECASE',) if icase else ()))
+
     def one(ast, s):
         if pathname:
+            if ast and ast[0][0] == 'sep':
+                return R.path_match3(tuple(ast[1:]), s, ps_anchored)
             return R.path_match3(ast, s, ps)
         return R.seg_match3(ast, s, True, icase)
 
